@@ -98,6 +98,7 @@ class C01(Prop):
             ctx.compare("dec-clean", lines, impl, model, oracle=lambda ln, a: None, sig=lambda ln: "step")
             ctx.traces += len(lines)
         self.txrx_m17mod(ctx, exe)
+        self.txrx_modulator(ctx, exe)
         j = next(i for i, e in enumerate(exp) if e and e["kind"] == "stream")
         ctx.sample({"frame": exp[j]["kind"], "request": lines[j][:50] + "...", "reply": impl[j][:140]})
 
@@ -123,6 +124,43 @@ class C01(Prop):
             if bad:
                 ctx.violate(f"dec-clean:{who}:{e['kind']}", f"clean {e['kind']} frame from {who}: {bad}",
                             {"stream": "dec-clean", "ops": deccheck.history(lines, ln, 30), "impl": a})
+
+    def txrx_modulator(self, ctx, exe):
+        """third transmitter: M17Modulator (real threads, fingerprinting codec stand-in); its frames through the decoder"""
+        rng = ctx.rng
+        mod = core.build_cpp("drv_modulator", ["drv_modulator.cpp"], extra_inc=[core.HARNESS + "/stub"], deps=["stub/codec2/codec2.h"])
+        g = decgen.Gen(rng)
+        src, dst = g.rand_call(), g.rand_call()
+        frames = 3 if ctx.tier == "quick" else 12
+        ln = f"modrun {rng.randrange(1, 10**6)} 0 0 1 {frames} 7 {len(src)} " + " ".join(str(ord(c)) for c in src) + f" {len(dst)} " + " ".join(str(ord(c)) for c in dst)
+        o = ctx.run_impl(mod, [ln], "modulator", timeout=600)[0]
+        if " | " not in o:
+            return
+        data = bytes(int(x) for x in o.split(" | ")[1].split())
+        if len(data) != 96 + 48 * (frames + 1):
+            ctx.violate("dec-clean:M17Modulator:length", f"M17Modulator emitted {len(data)} bytes for {frames} frames", {"stream": "modulator", "ops": [ln]})
+            return
+        lsf = list(S.make_lsf(dst, src, 0x0005, bytes(14), 0))
+        dl, exp = ["dec_new"], [None]
+        m = rng.randrange(1, 8)
+        dl.append("dec_frame 0 1 " + " ".join(map(str, S.soft(S.bits_of(data[50:96]), m))))
+        exp.append({"kind": "lsf", "calls": [(0, lsf)], "result": 1, "cost": rdiv(368 * (7 - m), 7), "mode": 1})
+        for f in range(frames + 1):
+            fr = data[96 + 48 * f:96 + 48 * (f + 1)]
+            m = rng.randrange(1, 8)
+            dl.append("dec_frame 1 1 " + " ".join(map(str, S.soft(S.bits_of(fr[2:]), m))))
+            exp.append({"kind": "stream", "calls": None, "result": 1, "cost": rdiv(272 * (7 - m), 7), "mode": 1})
+        impl = ctx.run_impl(exe, dl, "dec-txrx")
+        for i, (e, a) in enumerate(zip(exp, impl)):
+            if e and e["calls"] is None:
+                r = decgen.parse_reply(a)
+                if r and r["calls"]:
+                    fnb = r["calls"][0]["bytes"][:2]
+                    want_fn = (i - 2) | (0x8000 if i - 2 == frames else 0)
+                    e["calls"] = [(2, [want_fn >> 8, want_fn & 0xFF] + r["calls"][0]["bytes"][2:])]
+                else:
+                    e["calls"] = [(2, [])]
+        self.judge(ctx, dl, exp, impl, "M17Modulator")
 
     def txrx_m17mod(self, ctx, exe):
         """frames produced by the repository's own m17-mod functions, decoded by the repository's decoder"""
